@@ -66,6 +66,15 @@ func concScenarios() []concScen {
 		e := CacheCfg{Expiry: "writing", TTL: 100, Executor: "caller", ClockStart: 1 << 40}
 		out = append(out, concScen{"clock‖" + w + "(expiring)/caller", e, []string{"set 1", "set 2"}, [][]string{{"adv 100"}, {w}}, "native"})
 	}
+	// a reader that looked the entry up before its deadline extends it (access-based expiry, no bucket lock) while a
+	// writer that started after the deadline is between the steps of its operation on the same key: the writer must
+	// act on one decision (expired or not) throughout
+	for _, w := range []string{"sia 1", "set 1", "inv 1", "cw 1", "cia 1", "cipw 1", "ci 1"} {
+		acc := CacheCfg{Expiry: "accessing", TTL: 100, Executor: "caller", ClockStart: 1 << 40}
+		out = append(out, concScen{"lateReader‖" + w, acc, []string{"set 1", "set 2", "adv 60"}, [][]string{{"get 1"}, {"adv 50", w}}, "native"})
+		accb := CacheCfg{MaxSize: 3, Expiry: "accessing", TTL: 100, Executor: "caller", ClockStart: 1 << 40}
+		out = append(out, concScen{"lateReader‖" + w + "(bounded)", accb, []string{"set 1", "set 2", "adv 60"}, [][]string{{"get 1"}, {"adv 50", w}}, "native"})
+	}
 	// S6 load install || eviction
 	out = append(out, concScen{"load‖insert-evict/caller", CacheCfg{MaxSize: 2, Executor: "caller"}, two, [][]string{{"load 3"}, {"set 4"}}, "native"})
 	return out
